@@ -49,6 +49,11 @@ class NtTriplesYielder(BaseTriplesYielder):
                 last_index = self._look_for_last_index_of_literal_token(str_line, current_first_index)
                 result.append(str_line[current_first_index:last_index + 1])
                 current_first_index = last_index + 1
+                if str_line[current_first_index:current_first_index + 1] == "@":  # Language tag. It may contain digits (@es-419)
+                    current_first_index += 1
+                    while current_first_index < len(str_line) and \
+                            (str_line[current_first_index].isalnum() or str_line[current_first_index] == "-"):
+                        current_first_index += 1
             elif str_line[current_first_index] == '_':
                 last_index = self._look_for_last_index_of_bnode_token(str_line, current_first_index)
                 result.append(str_line[current_first_index:last_index + 1])
